@@ -68,7 +68,7 @@ impl Property for C09 {
         vec!["ring's verification is sound".into(), "bit flips are sampled (quick) – all positions only in thorough for Ed25519".into()]
     }
     fn cases(tier: Tier) -> u64 {
-        tier.pick(20_000, 300_000)
+        tier.pick(80_000, 300_000)
     }
     fn strategy(tier: Tier) -> BoxedStrategy<Spec> {
         let nflips = tier.pick(3usize, 8usize);
